@@ -213,6 +213,9 @@ pub struct Params {
     pub do_not_burn: bool,
     /// change address used by the builder scenarios: 0 base (57 bytes), 1 Byron (longer), 2 enterprise (29 bytes)
     pub change_kind: u8,
+    /// builder scenarios: feed the transaction builder through its older per-item entry points
+    /// (add_key_input, add_bootstrap_input, add_native_script_input, set_certs, set_withdrawals, set_mint)
+    pub legacy_api: bool,
 }
 
 impl Params {
@@ -231,6 +234,7 @@ impl Params {
             dedup_ref_inputs: false,
             do_not_burn: false,
             change_kind: 0,
+            legacy_api: false,
         }
     }
     pub fn config(&self) -> TransactionBuilderConfig {
